@@ -700,7 +700,7 @@ func TestC08(t *testing.T) {
 	{
 		d, co := XorAlg(0xA1)
 		mixedPeers(t, c, "TestC08", []connect.HandlerOption{connect.WithCompression("alg1", d, co), connect.WithCompressMinBytes(1)},
-			[]mixedPeer{{"", "gzip"}, {"", "alg1"}, {"", "alg1,gzip"}, {"", "gzip,alg1"}, {"alg1", "gzip"}, {"gzip", "alg1"}, {"alg1", "gzip,alg1"}, {"gzip", "alg1,gzip"}, {"alg1", ""}, {"", ""}})
+			[]mixedPeer{{enc: "", accept: "gzip"}, {enc: "", accept: "alg1"}, {enc: "", accept: "alg1,gzip"}, {enc: "", accept: "gzip,alg1"}, {enc: "alg1", accept: "gzip"}, {enc: "gzip", accept: "alg1"}, {enc: "alg1", accept: "gzip,alg1"}, {enc: "gzip", accept: "alg1,gzip"}, {enc: "alg1", accept: ""}, {enc: "", accept: ""}, {httpAccept: "gzip"}, {httpAccept: "alg1, gzip"}})
 	}
 	// two requests compressed with a custom algorithm served concurrently by one handler
 	for _, p := range AllProtos {
